@@ -49,7 +49,14 @@ func runC13(t *rapid.T) {
 	if core.Thorough() {
 		b.MaxCols, b.MaxRows = 6, 64
 	}
-	fs := gen.DrawFrame(t, b)
+	var fs *gen.FrameSpec
+	big := gen.Rare(t, "big", 1500)
+	if big {
+		fs = gen.DrawBigFrame(t, 300, 2500) // output far beyond the writer's 4 KiB buffer
+		core.Probe("big-frame")
+	} else {
+		fs = gen.DrawFrame(t, b)
+	}
 	scr := gen.DrawScramble(t, fs)
 	tr := &c13Trace{Frame: fs, Scramble: scr}
 	tr.Header = rapid.IntRange(0, 3).Draw(t, "header") != 0
@@ -64,6 +71,9 @@ func runC13(t *rapid.T) {
 		tr.Columns = order
 	}
 	tr.PipeCap = pipeCaps[rapid.IntRange(0, len(pipeCaps)-1).Draw(t, "pipecap")]
+	if big && tr.PipeCap < 4096 {
+		tr.PipeCap = 4096
+	}
 	// A null in an enum column whose declared value set lacks "" has no CSV
 	// form that is a declared value: it can only come back as null, i.e. with
 	// EmptyNull. Reading it back without EmptyNull is rightly an error and
